@@ -438,7 +438,7 @@ pub fn run(ctx: &mut Ctx) {
         "decimal rounding tolerance 1e-22 x (1 + gross turnover) on the conservation laws (Decimal carries 28 significant digits; a wrong term is at least a fee or a price tick times a quantity)".into(),
     ];
     ctx.run_regressions::<PositionLedger>();
-    ctx.run::<PositionLedger>(ctx.tier.pick(6_000, 200_000));
+    ctx.run::<PositionLedger>(ctx.tier.pick(150_000, 2_500_000));
 }
 
 pub fn replay(ctx: &mut Ctx, doc: &Value) -> bool {
